@@ -217,10 +217,6 @@ TConcat == /\ IsEvent("concat") /\ UNCHANGED spVars /\ UNCHANGED snap0 /\ Note(C
 \* spine terminated), and every note must be governed by the signatures the generator's tracker found in the full score.
 TXHeader == IsEvent("xheader") /\ Header(Ev.cells) /\ UNCHANGED <<fails, snap0>>
 TXRow == IsEvent("xrow") /\ Row(Ev.cells) /\ UNCHANGED <<fails, snap0>>
-SigTextAt(p) == IF p = NoPtr THEN <<>> ELSE At(p).cell.t
-NotesGoverning == LET ptrs == Flat([s \in 1..Len(stages) |-> SelectSeq([i \in 1..Len(stages[s]) |-> <<s, i>>],
-                                         LAMBDA q : s > 1 /\ stages[q[1]][q[2]].cell.k = "note")])
-                  IN [j \in 1..Len(ptrs) |-> LET n == At(ptrs[j]) IN <<SigTextAt(n.sig.clef), SigTextAt(n.sig.key), SigTextAt(n.sig.time)>>]
 TXEnd == /\ IsEvent("xend") /\ UNCHANGED spVars /\ UNCHANGED snap0
          /\ Note(<< <<"excerpt.every_spine_terminated", status = "closed">>,
                     <<"excerpt.reimports_without_errors", Ev.reimport_ok /\ Ev.reimport_nerr = 0>>,
